@@ -30,19 +30,20 @@ type gen struct{ id int }
 
 // State is one symbolic state.
 type State struct {
-	vars   map[*types.Var]Term
-	heap   map[string]Term
-	gen    *gen
-	pc     []PC
-	alloc  Term
-	approx []string
-	locks  map[string]Term // lock mode by lock key (DESIGN.md 5.3): 0 none, 1 R, 2 W
-	ghost  map[string]Term // ghost components (event counters, fs, ...)
-	dead   bool
+	vars     map[*types.Var]Term
+	heap     map[string]Term
+	gen      *gen
+	pc       []PC
+	alloc    Term
+	approx   []string
+	locks    map[string]Term // lock mode by lock key (DESIGN.md 5.3): 0 none, 1 R, 2 W
+	ghost    map[string]Term // ghost components (event counters, fs, ...)
+	ghostGen int             // > 0 once a loop was cut: absent call counters are then unknown, not zero
+	dead     bool
 }
 
 func (s *State) clone() *State {
-	n := &State{vars: make(map[*types.Var]Term, len(s.vars)), heap: make(map[string]Term, len(s.heap)), gen: s.gen, alloc: s.alloc}
+	n := &State{vars: make(map[*types.Var]Term, len(s.vars)), heap: make(map[string]Term, len(s.heap)), gen: s.gen, alloc: s.alloc, ghostGen: s.ghostGen}
 	for k, v := range s.vars {
 		n.vars[k] = v
 	}
@@ -171,6 +172,12 @@ type Exec struct {
 	returnsSeen       map[*Clause]bool
 	localList         []*types.Var
 	recvStatic        types.Type
+	ghostGenN         int
+	frameLocsCache    []frameLoc
+	frameLocsDone     bool
+	freshRefs         map[string]bool
+	writeChecked      map[string]bool
+	inFrameEval       bool
 	rebound           []string
 	boxInfo           map[string]boxRec
 	rfieldNames       map[string]string
@@ -188,7 +195,7 @@ type Options struct {
 }
 
 func newExec(w *World, fn *FuncInfo, c *Contract) *Exec {
-	x := &Exec{rfieldNames: map[string]string{}, w: w, ctx: NewCtx(), fn: fn, contract: c, sliceElems: map[Sort]Sort{}, genConsts: map[string]Term{}, kindCount: map[string]int{}, boxed: map[*types.Var]bool{}, globals: map[*types.Var]bool{}, inlineSeen: map[*types.Func]int{}, siteCount: map[string]int{}, fnConsts: map[string]Term{}, tenv: typeEnv{}, specLocals: map[string]*types.Var{}}
+	x := &Exec{rfieldNames: map[string]string{}, freshRefs: map[string]bool{}, writeChecked: map[string]bool{}, w: w, ctx: NewCtx(), fn: fn, contract: c, sliceElems: map[Sort]Sort{}, genConsts: map[string]Term{}, kindCount: map[string]int{}, boxed: map[*types.Var]bool{}, globals: map[*types.Var]bool{}, inlineSeen: map[*types.Func]int{}, siteCount: map[string]int{}, fnConsts: map[string]Term{}, tenv: typeEnv{}, specLocals: map[string]*types.Var{}}
 	x.ctx.StrLit("")
 	return x
 }
@@ -268,8 +275,52 @@ func (x *Exec) heapSet(st *State, name string, v Term) {
 	st.heap[name] = v
 }
 
+// writeAt records that cell ref of heap array name is being written, and checks the write against
+// the assigns clause of the function under contract (the frame is checked write by write:
+// DESIGN.md 4.1 "frame"). whole=true means the entire array may change.
+func (x *Exec) writeAt(st *State, name string, ref Term, whole bool) {
+	if x.contract == nil || !x.contract.HasAssign || x.entrySt == nil || x.inFrameEval || name == "G_bufContent" {
+		return
+	}
+	if !whole && x.freshRefs[ref.S] {
+		return
+	}
+	var allowed []Term
+	for _, l := range x.frameLocs() {
+		if l.heap != name {
+			continue
+		}
+		if l.whole {
+			return
+		}
+		allowed = append(allowed, eq(ref, l.ref))
+	}
+	var goal Term
+	if whole {
+		goal = tFalse
+	} else if strings.HasPrefix(name, "G_") {
+		goal = tFalse
+	} else {
+		// cells that did not exist at entry (or are not objects at all) are not part of the frame
+		allowed = append(allowed, mk(SBool, ">=", ref, x.entrySt.alloc), mk(SBool, "<=", ref, intLit(0)))
+		goal = or(allowed...)
+	}
+	if goal.S == "true" {
+		return
+	}
+	key := name + "|" + ref.S + "|" + x.posString(x.curPos)
+	if x.writeChecked[key] {
+		return
+	}
+	x.writeChecked[key] = true
+	x.emit(st, "frame", name, goal, x.contract.Props, "write to "+name+" is permitted by the assigns clause (or the cell is newly allocated)", x.curPos)
+}
+
 // havocAll forgets every heap array (call to an unknown function).
 func (x *Exec) havocAll(st *State) {
+	if x.contract != nil && x.contract.HasAssign && x.entrySt != nil && !x.inFrameEval {
+		x.emit(st, "frame", "everything", tFalse, x.contract.Props, "a callee without an assigns clause (or an unknown function) may modify anything; the assigns clause of this function does not allow that", x.curPos)
+	}
 	st.heap = map[string]Term{}
 	st.gen = x.newGen()
 	na := x.ctx.Fresh("alloc", SInt)
@@ -278,6 +329,13 @@ func (x *Exec) havocAll(st *State) {
 }
 
 func (x *Exec) havocHeap(st *State, name string, sort Sort) Term {
+	x.writeAt(st, name, intLit(0), true)
+	return x.forgetHeap(st, name, sort)
+}
+
+// forgetHeap replaces a heap array by an unknown one without treating that as a write
+// (loop heads: the writes themselves are checked where they happen).
+func (x *Exec) forgetHeap(st *State, name string, sort Sort) Term {
 	t := x.ctx.Fresh(name, sort)
 	st.heap[name] = t
 	return t
@@ -286,6 +344,7 @@ func (x *Exec) havocHeap(st *State, name string, sort Sort) Term {
 // allocRef returns a fresh reference.
 func (x *Exec) allocRef(st *State, hint string) Term {
 	r := x.ctx.Fresh("ref_"+hint, SInt)
+	x.freshRefs[r.S] = true
 	st.define(eq(r, st.alloc))
 	na := x.ctx.Fresh("alloc", SInt)
 	st.define(eq(na, mk(SInt, "+", st.alloc, intLit(1))))
@@ -522,7 +581,7 @@ func (x *Exec) join(base *State, ss []*State) *State {
 			for i, s := range live {
 				v, ok := get(s)[k]
 				if !ok {
-					v = intLit(0)
+					v = x.ghostDefault(s, k)
 				}
 				vals[i] = v
 				if v.S != vals[0].S {
@@ -539,6 +598,11 @@ func (x *Exec) join(base *State, ss []*State) *State {
 		}
 		set(out)
 	}
+	for _, s := range live {
+		if s.ghostGen > n.ghostGen {
+			n.ghostGen = s.ghostGen
+		}
+	}
 	mergeMap(func(s *State) map[string]Term { return s.locks }, func(m map[string]Term) { n.locks = m })
 	mergeMap(func(s *State) map[string]Term { return s.ghost }, func(m map[string]Term) { n.ghost = m })
 	// approximations
@@ -553,6 +617,25 @@ func (x *Exec) join(base *State, ss []*State) *State {
 		}
 	}
 	return n
+}
+
+// ghostDefault is the value of a ghost entry that a state does not hold explicitly: zero before
+// any loop was cut, an unknown (non-negative, per loop generation) value afterwards.
+func (x *Exec) ghostDefault(s *State, key string) Term {
+	if s.ghostGen == 0 || !(strings.HasPrefix(key, "called:") || strings.HasPrefix(key, "lasterr:")) {
+		if strings.HasPrefix(key, "lasterr:") {
+			return intLit(-1)
+		}
+		return intLit(0)
+	}
+	name := fmt.Sprintf("ghost_g%d_%s", s.ghostGen, mangle(key))
+	if !x.ctx.declared[name] {
+		x.ctx.declRaw(name, fmt.Sprintf("(declare-const %s Int)", name))
+		if strings.HasPrefix(key, "called:") {
+			x.ctx.Axiom(fmt.Sprintf("(>= %s 0)", name))
+		}
+	}
+	return Term{name, SInt}
 }
 
 // ---- type tags and boxing ----
